@@ -1,6 +1,7 @@
 //! C11: same instance handle <=> equal key members (hook `get_instance_handle_from_dynamic_data`).
 //! C12: key hash = big-endian XCDR serialization of the key members, zero padded to 16 bytes when the
-//! key's MAXIMUM serialized size is <= 16, MD5 otherwise.
+//! key's MAXIMUM serialized size is <= 16, MD5 otherwise. The maximum is computed exactly per admitted
+//! serialization variant (refenc::max_size_exact); a handle that is right under one variant is right.
 //!
 //! dust-dds and XTypes disagree on which members form the key when `@key` marks sit inside a nested
 //! structure (XTypes: only through key members; dust-dds additionally collects marks inside non-key
@@ -388,27 +389,25 @@ fn report_c11(rep: &mut Report, t: &Ty, a: &Val, names: &[String], want: Cls, sa
         eval_pair(&mt, &mv, names, want, salt)
     };
     // closed classes: the only known cause is dust-dds' flattening of @key marks found inside NON-key
-    // nested structs into one map keyed by member id (ids of different structs collide)
-    fn has_marks_in_nonkey_struct(t: &Ty) -> bool {
-        fn marked(t: &Ty) -> bool {
-            match t {
-                Ty::Struct(s) => s.members.iter().any(|m| m.key || marked(&m.ty)),
-                _ => false,
-            }
-        }
-        match t {
-            Ty::Struct(s) => s
-                .members
-                .iter()
-                .any(|m| !m.key && !m.optional && matches!(&m.ty, Ty::Struct(_)) && marked(&m.ty)),
-            _ => false,
-        }
-    }
+    // nested structs into one holder indexed by member id (ids of different structs collide). Verified
+    // on the minimised type by replaying the flattening (classify::flattened_key_id_collisions):
+    //   handle_error: some id occurs twice; different_key_same_handle: the id of the changed top-level
+    //   key member occurs twice (its value is the one that gets overwritten)
+    let collisions = crate::classify::flattened_key_id_collisions(&mt);
+    let changed_top_id = match (&mt, names.first()) {
+        (Ty::Struct(s), Some(n)) => s.members.iter().find(|m| &m.name == n).map(|m| m.id),
+        _ => None,
+    };
     let kind = key.split('|').next().unwrap_or("");
+    let explained = match kind {
+        "handle_error" => !collisions.is_empty(),
+        "different_key_same_handle" => changed_top_id.map(|i| collisions.contains(&i)).unwrap_or(false),
+        _ => false,
+    };
     let cause = if let Some(p) = key.strip_prefix("handle_panic|") {
         format!("unclassified|site={}", p)
-    } else if has_marks_in_nonkey_struct(&mt) {
-        "key_marks_in_nonkey_nested_struct_flattened_by_member_id".to_string()
+    } else if explained {
+        crate::classify::S5.to_string()
     } else {
         format!("unclassified|shape={}", sig_class(&mt))
     };
@@ -547,17 +546,31 @@ fn eval_hash(t: &Ty, v: &Val) -> (String, String) {
         H::Panic(p) => return (format!("handle_panic|{}", p.sig()), format!("{} at {}", p.msg, p.location)),
         H::Harness(e) => return ("harness".into(), e),
     };
+    // (variant, exact maximum serialized size of the key holder in that variant, class, serialization)
     let mut cands = Vec::new();
     for var in KEY_VARIANTS {
         if let Ok(ser) = serialize_key(&ht, &hv, var) {
+            let max = max_size_exact(&ht, var);
+            if let Some(m) = max {
+                if ser.len() > m {
+                    return (
+                        "harness".into(),
+                        format!("{}: this value takes {} bytes, more than the computed maximum {}", var.name(), ser.len(), m),
+                    );
+                }
+            }
             cands.push((var, max_class(&ht, var), ser));
         }
     }
     if cands.is_empty() {
         return ("harness".into(), "reference key serialization failed".into());
     }
+    // The property does not say which serialization variant S is. The handle is right if it is right
+    // under at least one admitted variant: pad16(S) where that variant's maximum is <= 16, MD5(S) where
+    // it is > 16. (The same bytes can be the zero padded S of a second variant whose maximum is larger:
+    // that is no violation.)
     for (var, cls, ser) in &cands {
-        if *cls != MaxClass::Unsure && h == key_hash(ser, *cls == MaxClass::Over16) {
+        if h == key_hash(ser, *cls == MaxClass::Over16) {
             return (
                 "ok".into(),
                 format!(
@@ -568,17 +581,26 @@ fn eval_hash(t: &Ty, v: &Val) -> (String, String) {
             );
         }
     }
+    // right under no variant: name the kind of wrong decision
     let show = |ser: &Vec<u8>| if ser.len() > 48 { format!("{}..({} bytes)", vcore::hex(&ser[..48]), ser.len()) } else { vcore::hex(ser) };
+    let maxes = || {
+        cands
+            .iter()
+            .map(|(var, _, _)| format!("{}:{}", var.name(), max_size_exact(&ht, *var).map(|m| m.to_string()).unwrap_or("unbounded".into())))
+            .collect::<Vec<_>>()
+            .join(" ")
+    };
     for (var, cls, ser) in &cands {
         if *cls == MaxClass::Over16 && ser.len() <= 16 && h == key_hash(ser, false) {
             return (
                 "keyhash|zero_padded_although_max_serialized_key_size_over_16".into(),
                 format!(
-                    "handle {} is the zero padded {} serialization {} ({} bytes now) but the key's maximum serialized size exceeds 16 bytes, so the MD5 {} is required",
+                    "handle {} is the zero padded {} serialization {} ({} bytes now) but the key's maximum serialized size exceeds 16 bytes in every variant whose zero padded form this is (maxima: {}), so the MD5 {} is required",
                     vcore::hex(&h),
                     var.name(),
                     show(ser),
                     ser.len(),
+                    maxes(),
                     vcore::hex(&key_hash(ser, true))
                 ),
             );
@@ -588,18 +610,15 @@ fn eval_hash(t: &Ty, v: &Val) -> (String, String) {
         if *cls == MaxClass::AtMost16 && h == key_hash(ser, true) {
             return (
                 "keyhash|md5_although_max_serialized_key_size_at_most_16".into(),
-                format!("handle {} is the MD5 of the {} serialization {}", vcore::hex(&h), var.name(), show(ser)),
+                format!(
+                    "handle {} is the MD5 of the {} serialization {} (maxima: {})",
+                    vcore::hex(&h),
+                    var.name(),
+                    show(ser),
+                    maxes()
+                ),
             );
         }
-    }
-    // the handle is the padded / hashed form of one of the serializations whose maximum size could
-    // not be decided: nothing to judge
-    if cands
-        .iter()
-        .any(|(_, cls, ser)| *cls == MaxClass::Unsure && (h == key_hash(ser, false) || h == key_hash(ser, true)))
-        || cands.iter().all(|c| c.1 == MaxClass::Unsure)
-    {
-        return ("n/a:max_size_estimate_straddles_16".into(), String::new());
     }
     if all_final_on_key_path(t) {
         (
@@ -697,7 +716,7 @@ pub fn run_c12(a: &Cli) -> Report {
             let (key, detail) = eval_hash(&t, &v);
             if key.starts_with("n/a") {
                 rep.stat(&key, 1);
-                if key != "n/a:max_size_estimate_straddles_16" && key != "n/a:bytes_not_judged_for_non_final_key_holders" {
+                if key != "n/a:bytes_not_judged_for_non_final_key_holders" {
                     break;
                 }
                 continue;
